@@ -139,7 +139,8 @@ def h_reenter(s0: List[int], s1: List[int], who: int, t: int, at: int, al: int) 
     """
     pre: len(s0) <= MAXS and len(s1) <= MAXS
     pre: all(0 <= x < NL for x in s0) and all(0 <= x < NL for x in s1)
-    pre: 0 <= who < NL and 0 <= t < NT and 0 <= at < NT and 0 <= al < NL
+    pre: 0 <= who < NL and t == 0 and 0 <= at < NT and 0 <= al < NL
+    pre: len(set(s0)) == len(s0) and len(set(s1)) == len(s1)
     post: _
     """
     prod, ls, ref, log = _build([s0, s1, []])
